@@ -171,7 +171,9 @@ func vScenarioC10(rc *runCtx) {
 		priorCycles = 1 + tp.Draw("c10.priorcycles", 2)
 		// (only for downloads stopped by the client, and only the client is timed then: the sending server
 		// rightly counts a stalled link as a slow one and takes its time)
-		stallDuring = !cfg.upload && tp.Bool("c10.priorstall", 400)
+		// (base64 lines only: in binary mode a block whose size line came in before the stall is read without the
+		// correction for the pause, so the stalled link counts as the slow link it was - the sender's view, by design)
+		stallDuring = !cfg.upload && !cfg.binary && tp.Bool("c10.priorstall", 400)
 		if stallDuring && tp.Bool("c10.priorstall2", 700) {
 			// mostly after an earlier question that was answered while data was flowing
 			priorCycles = 2
